@@ -1,5 +1,5 @@
 import Retro.Props.C01.Persp
-import Retro.Props.C03
+import Retro.Props.C03.Base
 import Retro.Props.C05
 import Retro.Props.C02.NoPanic
 
